@@ -41,14 +41,14 @@ func (m *c12SMModel) cleanup(c int, exp *c12SMLog) {
 
 // H_C12_submgr_hist: histories through the public API from the empty manager.
 //
-//verif:h prop=C12 p.ops=3/4 cover=connect,reconnect,disconnect,subscribe,resubscribe,unsubscribe,dropped runs=3000000 timeout=250/900
+//verif:h prop=C12 p.ops=3/4 cover=connect,reconnect,disconnect,subscribe,resubscribe,unsubscribe,dropped runs=3000000 timeout=900/900
 func H_C12_submgr_hist() { c12Submgr(false) }
 
 // H_C12_submgr_step: p.ops operations from an arbitrary state satisfying the representation invariant
 // (DESIGN.md Appendix A.9): every client connected or not, every subscription count in 0..2, global counts
 // equal to the sums.
 //
-//verif:h prop=C12 p.ops=1/2 cover=connect,reconnect,disconnect,subscribe,resubscribe,unsubscribe,dropped,shared-topic runs=3000000 timeout=250/900
+//verif:h prop=C12 p.ops=1/2 cover=connect,reconnect,disconnect,subscribe,resubscribe,unsubscribe,dropped,shared-topic runs=3000000 timeout=900/900
 func H_C12_submgr_step() { c12Submgr(true) }
 
 func c12Submgr(arbitraryState bool) {
